@@ -48,7 +48,7 @@ func main() {
 // each mutation is applied by re-parsing the file and mutating the k-th candidate node of a kind
 func mutate(file string, src []byte) []mutant {
 	var out []mutant
-	kinds := []string{"relop", "logic", "negate", "intlit", "arith", "delstmt", "swapargs", "strlit", "constswap", "funcswap", "boollit", "errnil", "elsedrop", "slicebound"}
+	kinds := []string{"relop", "logic", "negate", "intlit", "arith", "delstmt", "swapargs", "strlit", "constswap", "funcswap", "boollit", "errnil", "elsedrop", "slicebound", "casedrop", "entrydrop", "fieldswap", "condconst"}
 	if only := os.Getenv("MUTKINDS"); only != "" {
 		kinds = strings.Split(only, ",")
 	}
@@ -76,6 +76,10 @@ func mutate(file string, src []byte) []mutant {
 	}
 	return out
 }
+
+var fieldNext = map[string]string{"Left": "Right", "Right": "Left", "Min": "Max", "Max": "Min", "start": "pos", "pos": "start"}
+
+func isArrayType(e ast.Expr) bool { _, ok := e.(*ast.ArrayType); return ok }
 
 var relAlt = map[token.Token][]token.Token{
 	token.LSS: {token.LEQ}, token.LEQ: {token.LSS}, token.GTR: {token.GEQ}, token.GEQ: {token.GTR},
@@ -141,6 +145,58 @@ func apply(fset *token.FileSet, f *ast.File, kind string, k int) []string {
 							resOut := fmt.Sprintf("%s returned error → nil", pos(rs))
 							return setRes(&res_, resOut)
 						}
+					}
+				}
+			}
+		case "casedrop":
+			// one case clause of a switch removed (its values fall to the default / to nothing)
+			if cc, ok := n.(*ast.BlockStmt); ok {
+				for i, st := range cc.List {
+					if c, isCase := st.(*ast.CaseClause); isCase && c.List != nil && len(cc.List) > 1 {
+						idx++
+						if idx == k {
+							cc.List = append(append([]ast.Stmt{}, cc.List[:i]...), cc.List[i+1:]...)
+							res = []string{fmt.Sprintf("%s case clause removed", pos(c))}
+							return false
+						}
+					}
+				}
+			}
+		case "entrydrop":
+			// one keyed entry of a composite literal (a table row) removed
+			if cl, ok := n.(*ast.CompositeLit); ok && len(cl.Elts) > 1 {
+				if _, isMap := cl.Type.(*ast.MapType); isMap || cl.Type == nil || isArrayType(cl.Type) {
+					for i, e := range cl.Elts {
+						idx++
+						if idx == k {
+							cl.Elts = append(append([]ast.Expr{}, cl.Elts[:i]...), cl.Elts[i+1:]...)
+							res = []string{fmt.Sprintf("%s table entry removed", pos(e))}
+							return false
+						}
+					}
+				}
+			}
+		case "fieldswap":
+			// a field selector replaced by its sibling field (Left/Right, Min/Max, start/pos)
+			if sel, ok := n.(*ast.SelectorExpr); ok {
+				if alt, has := fieldNext[sel.Sel.Name]; has {
+					idx++
+					if idx == k {
+						old := sel.Sel.Name
+						sel.Sel.Name = alt
+						res = []string{fmt.Sprintf("%s .%s → .%s", pos(sel), old, alt)}
+					}
+				}
+			}
+		case "condconst":
+			// the condition of an if replaced by true, then by false (two mutants per site are too many: k even → true, odd → false)
+			if s, ok := n.(*ast.IfStmt); ok {
+				for _, v := range []string{"true", "false"} {
+					idx++
+					if idx == k {
+						s.Cond = &ast.Ident{Name: v, NamePos: s.Cond.Pos()}
+						res = []string{fmt.Sprintf("%s if condition → %s", pos(s), v)}
+						break
 					}
 				}
 			}
